@@ -133,7 +133,7 @@ func joinK(jt clip.JoinType, miter float64) float64 {
 // C05: polygon offsetting.
 func cmdC05(r *RNG, n int, e *Emitter, args []string) {
 	for i := 0; i < n; i++ {
-		takeDiscards()
+		clearEvents()
 		S := []float64{40, 80, 200, 1000}[r.Intn(4)]
 		in, split, sign := genSimpleSetGroupsSign(r, S)
 		if r.Intn(6) == 0 {
